@@ -794,9 +794,10 @@ class Gaussian(Funsor, metaclass=GaussianMeta):
         old_real_inputs = OrderedDict(
             (k, v) for k, v in self.inputs.items() if v.dtype == "real"
         )
-        new_real_inputs = old_real_inputs.copy()
+        new_real_inputs = OrderedDict(
+            (k, d) for k, d in old_real_inputs.items() if k not in affine
+        )
         for old_k, (const, coeffs) in affine.items():
-            del new_real_inputs[old_k]
             for new_k, (coeff, eqn) in coeffs.items():
                 new_shape = coeff.shape[: len(eqn.split("->")[0].split(",")[1])]
                 new_real_inputs[new_k] = Reals[new_shape]
@@ -811,7 +812,7 @@ class Gaussian(Funsor, metaclass=GaussianMeta):
         for old_k, old_offset in old_offsets.items():
             old_size = old_real_inputs[old_k].num_elements
             old_slice = slice(old_offset, old_offset + old_size)
-            if old_k in new_real_inputs:
+            if old_k not in affine:
                 new_offset = new_offsets[old_k]
                 new_slice = slice(new_offset, new_offset + old_size)
                 subs_matrix[..., new_slice, old_slice] = ops.new_eye(
